@@ -57,7 +57,7 @@ theorem chain_rel {l l' : L} : ∀ (names : List String) {m m' : M}, MRel ρ ρ'
         simp only at hb hm
         subst hb
         have s1 := handlerOf_step hn e1 g
-        cases b
+        cases b'
         · simp only []
           exact chain_rel rest hm (s1.ext.n ▸ hl) s1.good
         · simp only []
